@@ -62,6 +62,8 @@ type Contract struct {
 	Decreases []*Expr
 	LoopInv   map[int][]*Clause
 	LoopDecr  map[int][]*Expr
+	LoopMod   map[int][]*Expr
+	Sites     []*SiteClause
 	Lets      []struct {
 		Name string
 		E    *Expr
@@ -74,6 +76,17 @@ type Contract struct {
 	Where  string
 	Props map[string]bool // property tags mentioned
 	SafetyProps map[string]bool // properties owning the implicit safety/termination obligations
+}
+
+// SiteClause attaches a ghost update or an assertion to a call/go/defer site.
+type SiteClause struct {
+	Match string
+	Ord   int
+	Kind  string // assert | ghost
+	Tags  []string
+	LHS   *Expr
+	E     *Expr
+	Src   string
 }
 
 type Lemma struct {
@@ -306,9 +319,9 @@ func findDefEq(s string) int {
 }
 
 func parseContract(key string, clauses []string, where string) (*Contract, error) {
-	c := &Contract{Key: key, LoopInv: map[int][]*Clause{}, LoopDecr: map[int][]*Expr{}, Where: where, Props: map[string]bool{}, SafetyProps: map[string]bool{}}
+	c := &Contract{Key: key, LoopInv: map[int][]*Clause{}, LoopDecr: map[int][]*Expr{}, LoopMod: map[int][]*Expr{}, Where: where, Props: map[string]bool{}, SafetyProps: map[string]bool{}}
 	// clauses may themselves have been continued: a clause starts with a keyword
-	kw := regexp.MustCompile(`^(requires|ensures|modifies|allocates|pure|trusted|decreases|loop|maypanic|let|safety|formals|results|witness|replay)\b`)
+	kw := regexp.MustCompile(`^(requires|ensures|modifies|allocates|pure|trusted|decreases|loop|maypanic|let|safety|formals|results|witness|replay|site)\b`)
 	var merged []string
 	for _, l := range clauses {
 		l = strings.TrimSpace(l)
@@ -387,6 +400,46 @@ func parseContract(key string, clauses []string, where string) (*Contract, error
 				Name string
 				E    *Expr
 			}{strings.TrimSpace(kv[0]), e})
+		case "site":
+			// site <callee-substring>#<k> assert [tags] <expr>   |   site <callee-substring>#<k> ghost <lvalue> = <expr>
+			f := strings.SplitN(rest, " ", 3)
+			if len(f) < 3 {
+				return nil, fmt.Errorf("%s: bad site clause %q", w, l)
+			}
+			mo := strings.SplitN(f[0], "#", 2)
+			sc := &SiteClause{Match: mo[0], Kind: f[1]}
+			if len(mo) == 2 {
+				sc.Ord, _ = strconv.Atoi(mo[1])
+			}
+			switch f[1] {
+			case "assert":
+				tags, body := parseTags(f[2])
+				e, err := ParseExpr(body, w)
+				if err != nil {
+					return nil, err
+				}
+				sc.Tags, sc.E, sc.Src = tags, e, body
+				for _, t := range tags {
+					c.Props[t] = true
+				}
+			case "ghost":
+				i := findDefEq(f[2])
+				if i < 0 {
+					return nil, fmt.Errorf("%s: bad ghost update %q", w, l)
+				}
+				lhs, err := ParseExpr(f[2][:i], w)
+				if err != nil {
+					return nil, err
+				}
+				rhs, err := ParseExpr(f[2][i+1:], w)
+				if err != nil {
+					return nil, err
+				}
+				sc.LHS, sc.E, sc.Src = lhs, rhs, f[2]
+			default:
+				return nil, fmt.Errorf("%s: bad site clause kind %q", w, f[1])
+			}
+			c.Sites = append(c.Sites, sc)
 		case "witness":
 			kv := strings.SplitN(rest, "=", 2)
 			e, err := ParseExpr(kv[1], w)
@@ -426,6 +479,14 @@ func parseContract(key string, clauses []string, where string) (*Contract, error
 						return nil, err
 					}
 					c.LoopDecr[k] = append(c.LoopDecr[k], e)
+				}
+			case "modifies":
+				for _, item := range splitTop(f[2]) {
+					e, err := ParseExpr(item, w)
+					if err != nil {
+						return nil, err
+					}
+					c.LoopMod[k] = append(c.LoopMod[k], e)
 				}
 			default:
 				return nil, fmt.Errorf("%s: bad loop clause %q", w, l)
